@@ -713,29 +713,43 @@ func c07Recover(c *Ctx) {
 		})
 	}
 	// an error value produced by the runtime carries script objects: its Error() runs toString.  It must not leave Exec as is.
-	scope := []*ssa.Function{exec}
+	// mayRaw: host-side functions of the interpreter that can return such a value (the RunProgram wrapper does, by design)
+	var hostFns []*ssa.Function
 	for _, f := range fl {
-		if prog.PkgOf(f) == "interpreters/ecmascript" && f != exec {
-			scope = append(scope, f)
+		if prog.PkgOf(f) == "interpreters/ecmascript" && !onlyWorld(f) {
+			hostFns = append(hostFns, f)
 		}
 	}
-	nr := 0
-	for _, b := range exec.Blocks {
-		ret, ok := b.Instrs[len(b.Instrs)-1].(*ssa.Return)
-		if !ok || len(ret.Results) != 2 {
-			continue
+	errT := types.Universe.Lookup("error").Type()
+	mayRaw := map[*ssa.Function]bool{}
+	isRawSrc := func(v ssa.Value) bool {
+		if rawErr[v] {
+			return true
 		}
-		if provablyNil(ret.Results[1], b) {
-			continue
+		ex, ok := v.(*ssa.Extract)
+		if !ok {
+			if cl, isC := v.(*ssa.Call); isC && types.Identical(cl.Type(), errT) {
+				if sc := cl.Common().StaticCallee(); sc != nil && mayRaw[sc] {
+					return true
+				}
+			}
+			return false
 		}
-		nr++
-		raw := ""
+		cl, ok := ex.Tuple.(*ssa.Call)
+		if !ok || !types.Identical(ex.Type(), errT) {
+			return false
+		}
+		sc := cl.Common().StaticCallee()
+		return sc != nil && mayRaw[sc]
+	}
+	// rawAt: can the error operand of this return be a raw runtime error?
+	rawAt := func(f *ssa.Function, b *ssa.BasicBlock, res ssa.Value) string {
 		// typeFacts: the types T for which `val.(T)` is known to hold / not to hold at block blk
 		typeFacts := func(blk *ssa.BasicBlock, val ssa.Value, pol bool) map[string]bool {
 			out := map[string]bool{}
-			for _, f := range flow.FactsAt(blk) {
-				ex, ok := f.Cond.(*ssa.Extract)
-				if !ok || ex.Index != 1 || f.True != pol {
+			for _, fc := range flow.FactsAt(blk) {
+				ex, ok := fc.Cond.(*ssa.Extract)
+				if !ok || ex.Index != 1 || fc.True != pol {
 					continue
 				}
 				if ta, ok := ex.Tuple.(*ssa.TypeAssert); ok && ta.CommaOk && ta.X == val {
@@ -744,33 +758,32 @@ func c07Recover(c *Ctx) {
 			}
 			return out
 		}
-		notAtReturn := typeFacts(b, ret.Results[1], false)
-		for _, da := range phiEdgesWithBlocks(ret.Results[1], b) {
+		raw := ""
+		notAtReturn := typeFacts(b, res, false)
+		for _, da := range phiEdgesWithBlocks(res, b) {
 			hit := ""
-			for _, d := range deepDefs(da.v, scope) {
-				if rawErr[d] {
+			for _, d := range deepDefs(da.v, []*ssa.Function{f}) {
+				if isRawSrc(d) {
 					hit = c.posv(d)
 				}
 			}
 			if hit == "" {
 				continue
 			}
-			// the raw error is passed on only where it is known to be of a type that is excluded at the return
 			excluded := false
 			for t := range typeFacts(da.b, da.v, true) {
 				if notAtReturn[t] {
 					excluded = true
 				}
 			}
-			// ... or on the very edge that carries it into the returned phi
-			if ph, isPhi := ret.Results[1].(*ssa.Phi); isPhi {
+			if ph, isPhi := res.(*ssa.Phi); isPhi {
 				for i, e := range ph.Edges {
 					if e != da.v || ph.Block().Preds[i] != da.b {
 						continue
 					}
-					for _, f := range flow.EdgeFacts(da.b, ph.Block()) {
-						ex, ok := f.Cond.(*ssa.Extract)
-						if !ok || ex.Index != 1 || !f.True {
+					for _, fc := range flow.EdgeFacts(da.b, ph.Block()) {
+						ex, ok := fc.Cond.(*ssa.Extract)
+						if !ok || ex.Index != 1 || !fc.True {
 							continue
 						}
 						if ta, ok := ex.Tuple.(*ssa.TypeAssert); ok && ta.CommaOk && ta.X == da.v && notAtReturn[ta.AssertedType.String()] {
@@ -783,6 +796,41 @@ func c07Recover(c *Ctx) {
 				raw = hit
 			}
 		}
+		return raw
+	}
+	for changed := true; changed; {
+		changed = false
+		for _, f := range hostFns {
+			if mayRaw[f] || f == exec {
+				continue
+			}
+			n := f.Signature.Results().Len()
+			if n == 0 || !types.Identical(f.Signature.Results().At(n-1).Type(), errT) {
+				continue
+			}
+			for _, b := range f.Blocks {
+				ret, ok := b.Instrs[len(b.Instrs)-1].(*ssa.Return)
+				if !ok || len(ret.Results) != n {
+					continue
+				}
+				if rawAt(f, b, ret.Results[n-1]) != "" {
+					mayRaw[f] = true
+					changed = true
+				}
+			}
+		}
+	}
+	nr := 0
+	for _, b := range exec.Blocks {
+		ret, ok := b.Instrs[len(b.Instrs)-1].(*ssa.Return)
+		if !ok || len(ret.Results) != 2 {
+			continue
+		}
+		if provablyNil(ret.Results[1], b) {
+			continue
+		}
+		nr++
+		raw := rawAt(exec, b, ret.Results[1])
 		c.R.Check(raw == "", "C07-R4", fmt.Sprintf("Exec: error return #%d carries no script object", nr), c.pos(ret), "the error is a plain Go error (made from text obtained under recover) or a package sentinel",
 			"Exec returns the runtime's own error value ("+raw+"): a *goja.Exception holds the thrown script object, and core calls Error() on it outside any recover — a throwing toString crashes the host")
 	}
@@ -869,7 +917,18 @@ func c07Errors(c *Ctx, walk, step *ssa.Function) {
 			continue
 		}
 		// stored state is at the error node with bindings carrying error/lastNode/lastBindings
-		if al, isAl := st.Val.(*ssa.Alloc); isAl {
+		// (built in Walk or in a helper of package core)
+		escope := []*ssa.Function{walk}
+		for _, f := range pkgClosure(walk) {
+			if f != walk && f != step && prog.PkgOf(f) == "core" {
+				escope = append(escope, f)
+			}
+		}
+		for _, leaf := range deepDefs(st.Val, escope) {
+			al, isAl := leaf.(*ssa.Alloc)
+			if !isAl {
+				continue
+			}
 			var nodeOK, bsOK bool
 			for _, r := range ssau.Referrers(al) {
 				if fa, isFA := r.(*ssa.FieldAddr); isFA {
@@ -881,11 +940,13 @@ func c07Errors(c *Ctx, walk, step *ssa.Function) {
 								}
 							}
 							if ssau.IsField(fa, prog.Abs("core"), "State", "Bs") {
-								if ex, isEx := s2.Val.(*ssa.Extract); isEx {
-									if cl, isC := ex.Tuple.(*ssa.Call); isC && strings.HasSuffix(ssau.CalleeName(cl), "Extendm") {
-										keys := extendmKeys(cl)
-										if keys["error"] && keys["lastNode"] && keys["lastBindings"] {
-											bsOK = true
+								for _, bv := range deepDefs(s2.Val, escope) {
+									if ex, isEx := bv.(*ssa.Extract); isEx {
+										if cl, isC := ex.Tuple.(*ssa.Call); isC && strings.HasSuffix(ssau.CalleeName(cl), "Extendm") {
+											keys := extendmKeys(cl)
+											if keys["error"] && keys["lastNode"] && keys["lastBindings"] {
+												bsOK = true
+											}
 										}
 									}
 								}
